@@ -70,6 +70,49 @@ theorem C16_interleave_count (qs : List (List Bytes)) (sched : List Nat) :
       = (qs.map List.length).sum :=
   (inv_exec qs sched).count
 
+/-! ### raw-write granularity (the atomic step is one `write(2)`) -/
+
+/-- If every raw-write chunk ends at a line end, the concatenation of ANY sequence of such chunks
+parses into exactly the chunks' lines, in order, nothing torn or glued. -/
+theorem C16_chunks_complete_parse (cs : List Bytes) (h : chunksCompleteB cs = true) :
+    parseLines cs.flatten = ((cs.map (fun c => (parseLines c).1)).flatten, []) := by
+  apply parse_complete_chunks
+  intro c hc
+  have := List.all_eq_true.mp h c hc
+  simpa [parseLines] using this
+
+/-- … in particular every interleaving of two writers whose raw writes are complete: the
+monitor `chunksCompleteB` on each writer suffices for all schedules. -/
+theorem C16_merges_complete (w1 w2 : List Bytes) (h1 : chunksCompleteB w1 = true)
+    (h2 : chunksCompleteB w2 = true) (m : List Bytes) (hm : m ∈ merges w1 w2) :
+    chunksCompleteB m = true ∧
+    parseLines m.flatten = ((m.map (fun c => (parseLines c).1)).flatten, []) := by
+  have hc : chunksCompleteB m = true := by
+    unfold chunksCompleteB at *
+    rw [List.all_eq_true] at *
+    intro c hcm
+    rcases mem_merges w1 w2 m hm c hcm with h | h
+    · exact h1 c h
+    · exact h2 c h
+  exact ⟨hc, C16_chunks_complete_parse m hc⟩
+
+/-- One append = one complete frame in one raw write is accepted … -/
+theorem C16_single_write_ok (l : Bytes) (h : LF ∉ l) : rawWritesOkB [frame l] (frame l) = true := by
+  have p : parseLines (frame l) = ([l], []) := by
+    have := parse_frames [l] (by simpa using h)
+    simpa [parseLines] using this
+  simp [rawWritesOkB, chunksCompleteB, p]
+
+/-- … while payload and LF in two raw writes (what a buffered handle does with
+`f.write(data); f.write(b"\n")` once `data` exceeds the buffer) is rejected, and rightly so: one
+interleaving of two such writers glues the records and detaches an empty line. -/
+theorem C16_split_write_witness :
+    rawWritesOkB [[1, 2], [LF]] (frame [1, 2]) = false ∧
+    [[1, 2], [7], [LF], [LF]] ∈ merges [[1, 2], [LF]] [[7], [LF]] ∧
+    parseLines ([[1, 2], [7], [LF], [LF]] : List Bytes).flatten = ([[1, 2, 7], []], []) ∧
+    allMergesFramedB [[1, 2], [LF]] [[7], [LF]] [[1, 2], [7]] = false ∧
+    allMergesFramedB [frame [1, 2]] [frame [7]] [[1, 2], [7]] = true := by decide
+
 /-- **Compaction rewrite.**  The payload written by `rewrite_jsonl` (one canonical line per
 normalised record, then `atomic_write_text`'s CRLF→LF replacement) parses back into exactly
 those lines, provided the encoder emits no raw LF/CR. -/
